@@ -314,6 +314,15 @@ def check_case(case, ctr):
                 break
             if not same(c1, 'fromdict-raw-permuted', permutation=perm, reversed_inner=rev):
                 break
+            # the same stored order through the JSON entry point
+            try:
+                c2 = C.fromjson(io.StringIO(json.dumps(pd)), raw=True)
+            except Exception as e:
+                bad('fromjson-raw-permuted', 'a context', f'{type(e).__name__}: {e}',
+                    permutation=perm, reversed_inner=rev)
+                break
+            if not same(c2, 'fromjson-raw-permuted', permutation=perm, reversed_inner=rev):
+                break
         if V:
             break
     return V
